@@ -106,3 +106,28 @@ def c14(run):
                 nontrivial=lambda e: "cost" in e["out"] and len(set(e["out"]["cost"])) > 2)
     trace_stage(run, "cost-traces", "cost_trace",
                 nontrivial=lambda e: ("cost" in e["out"] and len(set(e["out"]["cost"])) > 2) or "ext" in e["out"])
+
+
+@check("C08")
+def c08(run):
+    run.cov["rule"] = ("search events: search / search_with_offset on table-defined monotone workloads: every monotone w:1..4->0..4 "
+                       "(thorough 1..5->0..5) x dedicated / periodic / constrained (P<=3, thorough 4) / two user staircases x specialised "
+                       "and default service_time x in-window offsets 0..4 x limits {1,2,3,5,8,13}, plus seeded random tables of length<=60; "
+                       "maxrt events: max_response_time on every sequence of length<=4 over 3 Ok values and 2 errors; "
+                       "non-trivial = the workload is positive somewhere (demand exists); distinct = canonical JSON of the input")
+    run.assumptions += ["offsets are inside the busy window (premise of C08)", "supplies are 1-Lipschitz with sbf(0)=0"]
+    trace_stage(run, "search", "search",
+                nontrivial=lambda e: e["op"] == "maxrt" or max(e["in"]["w"]) > 0)
+
+
+@check("C06")
+def c06(run):
+    run.cov["rule"] = ("rta events: each of the nine dedicated-processor analyses on (a) every ordered pair of tasks from the box "
+                       "T<=4, C<=2, J in {0,1,T+1} with two limits each out of {3,7,14,30} and (b) seeded random 1-4-task inputs with "
+                       "jitter, bursty curves (plain / extrapolating / propagated / sums / conversions), non-scalar cost models where the "
+                       "API allows, blocking bounds, segment parameters and limits drawn around the busy-window length; "
+                       "non-trivial = the recorded outcome is neither Ok(0) nor Ok(own WCET); distinct = canonical JSON of the input")
+    run.assumptions += ["definitional evaluation uses the request-bound tables recorded from the very objects passed to the analysis"]
+    trace_stage(run, "rta", "rta",
+                nontrivial=lambda e: e["out"].get("ok", -1) not in (0, e["in"]["tua"].get("C", -2)),
+                keyfn=lambda e: {k: v for k, v in e["in"].items() if k != "tags"})
